@@ -21,6 +21,12 @@ theorem satMul2_half_le (x : Nat) : satMul2 x / 2 ≤ x := by
 
 theorem satMul2_half_le_self (x : Nat) : satMul2 x / 2 ≤ satMul2 x := by omega
 
+theorem satMul2_le_two_mul (x : Nat) : satMul2 x ≤ 2 * x := by
+  simp only [satMul2]; omega
+
+theorem satMul2_le_u32max (x : Nat) : satMul2 x ≤ u32max := by
+  simp only [satMul2]; omega
+
 /-! ## `setMax`, `replaceMax`, `rateLimitedUpdate`, `lossIncreaseUpdate` -/
 
 theorem setMax_ne_nil {set : List RecvEntry} (h : set ≠ []) : ∃ m, setMax set = .ok m := by
@@ -202,9 +208,8 @@ theorem handleFeedback_eq (ops : FloatOps F) (s : State F) (now : Nat) (fb : Fee
             | some t =>
               if now < t then .error .overflow else
               if now - t ≥ ops.sToMs (rttOf ops s fb) then
-                if 2 * s.sendRate > u32max then .error .overflow else
                 .ok (fin ops s now fb set (.slowStart (some now))
-                  (max (min (2 * s.sendRate) L) (ops.initRate (rttOf ops s fb))), none)
+                  (max (min (satMul2 s.sendRate) L) (ops.initRate (rttOf ops s fb))), none)
               else .ok (fin ops s now fb set s.mode s.sendRate, none) := by
   unfold handleFeedback
   simp only [updateRtt, updateRto]
@@ -227,16 +232,12 @@ theorem handleFeedback_eq (ops : FloatOps F) (s : State F) (now : Nat) (fb : Fee
         cases ld with
         | none => rfl
         | some t =>
-          show (if now < t then _ else if now - t ≥ ops.sToMs (rttOf ops s fb) then
-            (if 2 * s.sendRate > u32max then _ else _) else _) = _
+          show (if now < t then _ else if now - t ≥ ops.sToMs (rttOf ops s fb) then _ else _) = _
           by_cases h1 : now < t
           · simp only [if_pos h1]
           · simp only [if_neg h1]
             by_cases h2 : now - t ≥ ops.sToMs (rttOf ops s fb)
-            · simp only [if_pos h2]
-              by_cases h3 : 2 * s.sendRate > u32max
-              · simp only [if_pos h3]
-              · simp only [if_neg h3]; rfl
+            · simp only [if_pos h2]; rfl
             · simp only [if_neg h2]; rfl
 
 /-- `updOf` only traps when time runs backwards. -/
@@ -360,9 +361,9 @@ inductive HfBranch (ops : FloatOps F) (s : State F) (now : Nat) (fb : Feedback F
       HfBranch ops s now fb L (.slowStart (some now)) (ops.initRate (rttOf ops s fb)) none
   /-- slow start, one RTT since the last doubling -/
   | double (t : Nat) (hm : s.mode = .slowStart (some t)) (hl : lossInc ops s fb = false)
-      (ht : t ≤ now) (hd : ops.sToMs (rttOf ops s fb) ≤ now - t) (ho : 2 * s.sendRate ≤ u32max) :
+      (ht : t ≤ now) (hd : ops.sToMs (rttOf ops s fb) ≤ now - t) :
       HfBranch ops s now fb L (.slowStart (some now))
-        (max (min (2 * s.sendRate) L) (ops.initRate (rttOf ops s fb))) none
+        (max (min (satMul2 s.sendRate) L) (ops.initRate (rttOf ops s fb))) none
   /-- slow start, less than one RTT since the last doubling -/
   | keep (t : Nat) (hm : s.mode = .slowStart (some t)) (hl : lossInc ops s fb = false)
       (ht : t ≤ now) (hd : now - t < ops.sToMs (rttOf ops s fb)) :
@@ -413,11 +414,8 @@ theorem handleFeedback_ok_cases {ops : FloatOps F} {s s' : State F} {now : Nat} 
           · rw [if_neg h1] at h
             by_cases h2 : now - t ≥ ops.sToMs (rttOf ops s fb)
             · rw [if_pos h2] at h
-              by_cases h3 : 2 * s.sendRate > u32max
-              · rw [if_pos h3] at h; cases h
-              · rw [if_neg h3] at h
-                cases h
-                exact ⟨_, _, rfl, rfl, .double t hm hl (by omega) h2 (by omega)⟩
+              cases h
+              exact ⟨_, _, rfl, rfl, .double t hm hl (by omega) h2⟩
             · rw [if_neg h2] at h
               cases h
               exact ⟨_, _, rfl, rfl, .keep t hm hl (by omega) (by omega)⟩
